@@ -37,6 +37,7 @@ package polling
 //@   onstore packets
 //@     requires recv == pq && wheld(pq.mu) [C02.pollq.get.atomic]
 //@   ensures result == old(pq.packets) && len(pq.packets) == 0 [C02.pollq.get.all]
+//@   ensures arr(pq.packets) == 0 || arr(pq.packets) != arr(result) [C02.pollq.get.batch.not.shared]
 //@   ensures !held(pq.mu) [C02.pollq.get.released]
 
 //@ func (*ServerTransport).Send
